@@ -706,6 +706,33 @@ def r4(ctx):
         ctx.require(len(defs) >= 1, '%s._ravel_leaves: no definition of the common dtype' % b)
         text = ' ; '.join(src(d_.value) for d_ in defs)
         pairwise_np = any(_mentions(d_.value, 'promote_types') for d_ in defs)
+        # the promotion is over the dtypes that are recorded for the unravel function (the DTYPES
+        # tuple), not over the leaves themselves: value-based promotion treats Python scalars and
+        # weakly typed arrays as having no dtype of their own, so the flat array can get a narrower
+        # dtype than a leaf that unravel will cast back to
+        roles_ = _def_roles(fn)
+        dts = {v for v, r in roles_.items() if r == 'DTYPES'}
+        leaves_p = _first_param(fn)
+        over_leaves = []
+        over_dtypes = False
+        for d_ in defs:
+            for c_ in ast.walk(d_.value):
+                if isinstance(c_, ast.Call) and (call_name(c_) or '').split('.')[-1] in ('result_type', 'promote_types'):
+                    for a_ in c_.args:
+                        inner = a_.value if isinstance(a_, ast.Starred) else a_
+                        if isinstance(inner, ast.Name) and inner.id == leaves_p:
+                            over_leaves.append(c_)
+                        if any(isinstance(n_, ast.Name) and (n_.id in dts or n_.id in dvars)
+                               for n_ in ast.walk(inner)):
+                            over_dtypes = True
+            if isinstance(d_.value, ast.Subscript) and isinstance(d_.value.value, ast.Name) and d_.value.value.id in dts:
+                over_dtypes = True
+        ctx.check('%s._ravel_leaves/promotes-the-recorded-dtypes' % b, over_dtypes and not over_leaves,
+                  '%s: the common dtype is the promotion of the recorded leaf dtypes' % b,
+                  '%s: the common dtype is computed as `%s` - from the leaves themselves, not from the dtypes '
+                  'recorded for unravel: a Python scalar or weakly typed leaf next to a narrower array '
+                  'does not widen the result, its value is cast to the narrow dtype (300 -> 44 in int8) and '
+                  'unravel(ravel(t)) != t' % (b, text), mod.loc(defs[0]))
         ctx.check('%s._ravel_leaves/promotion' % b, not (b == 'numpy' and pairwise_np),
                   '%s: common dtype computed as `%s`' % (b, text),
                   'numpy backend folds np.promote_types pairwise (`%s`): that operation is not '
